@@ -214,6 +214,7 @@ class Body:
             return self._defs
         d = {}
         partial = {}
+        deref_w = {}
         for bi, b in enumerate(self.blocks):
             if bi in self.cleanup:
                 continue
@@ -222,6 +223,8 @@ class Body:
                     p = s["p"]
                     if "p" not in p:
                         d.setdefault(p["l"], []).append(("s", bi, si))
+                    elif p["p"][0] == "*":
+                        deref_w.setdefault(p["l"], []).append(("s", bi, si))
                     else:
                         partial.setdefault(p["l"], []).append(("s", bi, si))
             t = b["t"]
@@ -229,12 +232,15 @@ class Body:
                 p = t["dst"]
                 if "p" not in p:
                     d.setdefault(p["l"], []).append(("t", bi))
+                elif p["p"][0] == "*":
+                    deref_w.setdefault(p["l"], []).append(("t", bi))
                 else:
                     partial.setdefault(p["l"], []).append(("t", bi))
             elif t["k"] == "yield":
                 pass
         self._defs = d
         self._partial = partial
+        self._deref_written = deref_w
         # user variables that are mutably borrowed: their content changes after the definition
         mb = set()
         for bi, b in enumerate(self.blocks):
@@ -309,11 +315,40 @@ class Body:
         if path is None:
             return ("call", "<indirect>", (self.term_operand(f, depth + 1, seen),) + args)
         base = f.get("fn")
+        if path.endswith("box_assume_init_into_vec_unsafe") and t["a"] and t["a"][0]["k"] in ("mv", "cp") and "p" not in t["a"][0]["p"]:
+            # `vec![a, b]`: a Box<[T; N]> written through its pointer, then turned into a Vec
+            src = self._box_source(t["a"][0]["p"]["l"])
+            if src is not None:
+                return src
         if (base in TRANSPARENT_CALLS or path in TRANSPARENT_CALLS) and args:
             return args[0]
         if base is not None and base.endswith("Future::poll"):
             path = base  # keep the await idiom recognisable (resolution points at the coroutine body)
         return ("call", path, args)
+
+    def _box_source(self, l, hops=4):
+        """contents written through `*box` for the box local l (following plain moves)"""
+        self.defs()
+        cur = l
+        for _ in range(hops):
+            w = self._deref_written.get(cur)
+            if w:
+                vals = []
+                for d in w:
+                    if d[0] == "s":
+                        vals.append(self.term_rvalue(self.blocks[d[1]]["s"][d[2]]["rv"]))
+                return ("vec", tuple(vals))
+            ds = self._defs.get(cur, [])
+            if len(ds) == 1 and ds[0][0] == "s":
+                rv = self.blocks[ds[0][1]]["s"][ds[0][2]]["rv"]
+                if rv["r"] == "use" and rv["o"]["k"] in ("mv", "cp") and "p" not in rv["o"]["p"]:
+                    cur = rv["o"]["p"]["l"]
+                    continue
+                if rv["r"] == "cast" and rv["o"]["k"] in ("mv", "cp") and "p" not in rv["o"]["p"]:
+                    cur = rv["o"]["p"]["l"]
+                    continue
+            break
+        return None
 
     def term_operand(self, o, depth=0, seen=()):
         k = o["k"]
@@ -623,7 +658,7 @@ def _emit(t, out, budget):
         lit("discr("); _emit(t[1], out, budget); lit(")")
     elif k == "agg":
         lit("%s::%s{" % (t[1], t[2])); seq(t[3]); lit("}")
-    elif k in ("tuple", "array"):
+    elif k in ("tuple", "array", "vec"):
         lit(k + "("); seq(t[1]); lit(")")
     elif k == "closure":
         lit("closure<%s>(" % t[1]); seq(t[2]); lit(")")
